@@ -371,8 +371,36 @@ func (e *kvElection) attemptAcquire() error {
 	)
 
 	e.recordAcquireAttempt("success")
+	e.endSupersededTerm()
 	e.becomeLeader(token, rev)
 	return nil
+}
+
+// endSupersededTerm is called when an acquisition has just written a new record
+// for this instance. If the instance still leads an earlier term at that point
+// (another acquisition round of this instance won first), that term's record
+// has been removed or replaced in the meantime, otherwise the write could not
+// have succeeded: the earlier term is over. It is ended like any other term
+// (demotion, OnDemote) before the new one starts, so that OnPromote is never
+// invoked twice in a row and the new term gets its own loops and context.
+func (e *kvElection) endSupersededTerm() {
+	if !e.IsLeader() || !e.becomeFollower() {
+		return
+	}
+
+	e.mu.RLock()
+	onDemote := e.onDemote
+	e.mu.RUnlock()
+
+	if onDemote != nil {
+		log := e.getLogger()
+		log.Info("leader_demoted",
+			append(e.logWithContext(e.ctx),
+				zap.String("reason", "superseded_by_new_acquisition"),
+			)...,
+		)
+		onDemote()
+	}
 }
 
 func (e *kvElection) becomeLeader(token string, rev uint64) {
@@ -518,6 +546,7 @@ func (e *kvElection) attemptPriorityTakeover(payloadBytes []byte) error {
 		return fmt.Errorf("failed to unmarshal payload after takeover: %w", err)
 	}
 
+	e.endSupersededTerm()
 	e.revision.Store(newRev)
 	e.token.Store(newPayloadStruct.Token)
 	e.becomeLeader(newPayloadStruct.Token, newRev)
